@@ -156,6 +156,23 @@ def make_message(rng, idx, nfrag, seq, chan, mt=None, head='!AIVDM', bad_checksu
     return out
 
 
+def long_message(rng, idx, nfrag, seq, chan, chars):
+    """A message of nfrag fragments with `chars` payload characters each (up to the 200 a sentence may carry): the reassembly
+    must not care how much it adds up to (9 x 200 characters = 10800 bits; surplus bits behind a type's layout are ignored by
+    the decoder, the loops deliver the sentence all the same)."""
+    mt = 8
+    bits = format(mt, '06b') + ''.join(rng.choice('01') for _ in range(6 * chars * nfrag - 6))
+    payload, fill = ais.armor(bits)
+    out = []
+    for i in range(nfrag):
+        chunk = payload[i * chars:(i + 1) * chars]
+        body = ','.join(['AIVDM', str(nfrag), str(i + 1), '' if seq is None else str(seq), chan, chunk, '0']).encode()
+        line = b'!' + body + b'*' + format(ais.xor_checksum(body), '02X').encode()
+        out.append({'kind': 'frag', 'hex': line.hex(), 'msg': idx, 'cnt': nfrag, 'num': i + 1, 'seq': seq, 'chan': chan,
+                    'raw': line.hex(), 'chunk': chunk, 'fill': 0, 'valid': True, 'bits': ais.dearmor(chunk, 0), 'tag': None, 'mt': mt})
+    return out
+
+
 def wrapper_line(rng, valid=True):
     y, mo, d = rng.randrange(1990, 2031), rng.randrange(1, 13), rng.randrange(1, 29)
     h, mi, s, ms = rng.randrange(24), rng.randrange(60), rng.randrange(60), rng.randrange(1000)
@@ -367,6 +384,11 @@ def boundary_schedules(rng):
     y = make_message(rng, 4, 1, None, 'B', bad_checksums=0)
     out.append(('verbatim-single-and-wrappers', [wrapper_line(rng), x[0], dict(x[0], msg=1), y[0], wrapper_line(rng),
                                                  dict(x[0], msg=2), dict(y[0], msg=5), dict(x[0], msg=3)]))
+    # the largest messages the sentence format admits: 9 fragments of 160 and of 200 payload characters, interleaved with a single
+    big = long_message(rng, 0, 9, 6, 'A', 160)
+    big2 = long_message(rng, 1, 9, 7, 'B', 200)
+    one = make_message(rng, 2, 1, None, 'A')
+    out.append(('nine-long-fragments', big[:5] + one + big[5:] + big2[::-1]))
     # tag-blocked multi-part with a wrapper
     t = make_message(rng, 0, 2, 8, 'B', tagged=1.0)
     out.append(('tagged', [wrapper_line(rng), t[1], t[0]]))
@@ -1327,6 +1349,26 @@ def run_case(ctx, seq, label, term=b'', tbq=False, frontends=None, cache=None, t
                 if 'C18' in want:
                     for comp, kind, text, cls in oracle_c18(ctx.model, seq, spec_per, res4, nm4):
                         rep.violation({'entry': nm4, 'component': comp, 'kind': kind, 'class': cls}, f'{text} [{label}]', rp)
+    if scoped and ctx.model is not None and (sum(len(x) for x in lines) + len(lines)) % 6 == 0:
+        # the same case while an hour passes between any two clock readings (tools/props/leapclock.py): nothing in these paths
+        # may depend on the time that passes between two lines
+        import leapclock
+        for base_name in ('IterMessages', 'NMEAQueue'):
+            if base_name not in frontends:
+                continue
+            with leapclock.leaping():
+                res5 = run_frontend(base_name, lines_for(base_name, lines, term), tbq, tmpdir=tmpdir)
+            nm5 = base_name + '/leaping-clock'
+            results[nm5] = res5
+            rep.case((nm5, tbq, term, tuple(case['lines'])), kind='frontend:' + nm5)
+            rp5 = {'seq': seq, 'term': term.hex(), 'tbq': tbq, 'label': label, 'previous': previous, 'frontend': nm5}
+            if 'C03' in want or 'C07' in want:
+                for comp, kind, text in oracle_c03(spec_per, res5, nm5):
+                    rep.violation({'entry': nm5, 'component': comp, 'kind': kind}, f'{text} [{label}; an hour between clock readings]', rp5)
+            if 'C18' in want:
+                for comp, kind, text, cls in oracle_c18(ctx.model, seq, spec_per, res5, nm5):
+                    rep.violation({'entry': nm5, 'component': comp, 'kind': kind, 'class': cls},
+                                  f'{text} [{label}; an hour between clock readings]', rp5)
     if (scoped or pairwise_only) and 'C07' in want and len(frontends) > 1:
         for nm, comp, kind, text in oracle_c07(results):
             rep.violation({'entry': nm, 'component': comp, 'kind': kind}, f'{text} [{label}]',
@@ -1420,6 +1462,21 @@ def reuse_after_incomplete(rng):
         # the new fragments arrive decides what a loop that resets or restarts a slot does)
         cases.append([old[i] for i in keep] + [other[0]] + new)
         cases.append([old[i] for i in keep] + new[::-1] + [other[0]])
+    # a message of 12 fragments (the format allows two-digit counts) in a slot that an unfinished 2-fragment message opened
+    opener = make_message(rng, 0, 2, sq, ch, bad_checksums=0)
+    twelve = []
+    bits12 = format(5, '06b') + ''.join(rng.choice('01') for _ in range(424 - 6))
+    p12, f12 = ais.armor(bits12)
+    step = -(-len(p12) // 12)
+    for i in range(12):
+        chunk = p12[i * step:(i + 1) * step]
+        body = ','.join(['AIVDM', '12', str(i + 1), '' if sq is None else str(sq), ch, chunk, str(f12 if i == 11 else 0)]).encode()
+        line = b'!' + body + b'*' + format(ais.xor_checksum(body), '02X').encode()
+        twelve.append({'kind': 'frag', 'hex': line.hex(), 'msg': 1, 'cnt': 12, 'num': i + 1, 'seq': sq, 'chan': ch, 'raw': line.hex(),
+                       'chunk': chunk, 'fill': f12 if i == 11 else 0, 'valid': True, 'bits': ais.dearmor(chunk, f12 if i == 11 else 0),
+                       'tag': None, 'mt': 5})
+    cases.append([opener[0]] + twelve + [make_message(rng, 2, 1, None, 'A')[0]])
+    cases.append(twelve[::-1])
     # a fragment that arrives twice while its message is still open (a repeater echo): X1 X2 X2 S X3, X1 X1 X2, X2 X1 X2 X3
     x = make_message(rng, 0, 3, sq, ch, bad_checksums=0)
     y = make_message(rng, 1, 1, None, 'A')
@@ -1647,7 +1704,7 @@ def replay_case(ctx, data, want):
         if any('/' in f for f in fes):
             # a derived front-end (ByteStream/resumed, <reader>/polled, SocketStream/chunked): run_case derives them from the
             # plain ones of a 'sequential' case
-            if not label.startswith('sequential'):
+            if not label.startswith('sequential') and any('/' in f and not f.endswith('/leaping-clock') for f in fes):
                 label = 'sequential:replay'
             fes = sorted({f.split('/')[0] for f in fes} | ({'ByteStream'} if any('/polled' in f or '/resumed' in f for f in fes) else set()))
 
